@@ -172,7 +172,9 @@ func (jp *joeParts) inArm(field string, b *ssa.BasicBlock) bool {
 }
 
 // isSubscriberChan: the named channel type `subscriber`.
-func isSubscriberType(t types.Type) bool { return typeIs(t, "sse", "subscriber") && namedOf(t) != nil && !isPointer(t) }
+func isSubscriberType(t types.Type) bool {
+	return typeIs(t, "sse", "subscriber") && namedOf(t) != nil && !isPointer(t)
+}
 
 func isPointer(t types.Type) bool { _, ok := t.Underlying().(*types.Pointer); return ok }
 
